@@ -1,3 +1,5 @@
 pub mod c18;
 pub mod c03;
 pub mod c09;
+pub mod c10;
+pub mod c11;
